@@ -1,6 +1,7 @@
 import SlogModel.Lemmas.E2E
 import SlogModel.Lemmas.ClientRefine
 import SlogModel.Props.C03
+import SlogModel.Lemmas.ClientHealthy
 import SlogModel.Gen.Facts
 
 /-!
@@ -183,6 +184,53 @@ example : (Client.run (Client.init [0, 1, 2]) demoClient).map (fun c => (c.confi
 example : (run { queue := [0, 1, 2] } (ClientRefine.mapRun (Client.init [0, 1, 2]) demoClient)).map (fun e => (e.acked, e.disk, e.running)) =
     some ([0], [1, 2], false) := by
   simp [demoClient, ClientRefine.mapRun, ClientRefine.mapAct, Client.run, Client.step, Client.init, Client.newLeft, Client.dedupSorted, Client.ackCap, List.mergeSort, List.MergeSort.Internal.splitInTwo, run, step, closeChunk, sortIds, ins]
+
+/-! ### at least once, without assuming the drained state
+
+`C01_drained` takes "nothing queued, nothing in flight" as a hypothesis.  With the refinement and the bounded fault-free
+future of the client (`C02.healthy_run`, `C02.healthy_stuck`) that state is a consequence: -/
+
+theorem held_waiting_nil_of_inflight_nil (c : Client.St) (h : Client.inflight c = []) (hq : c.queue = []) :
+    ClientRefine.held c = [] ∧ ClientRefine.waiting c = [] := by
+  unfold Client.inflight at h
+  unfold ClientRefine.held ClientRefine.waiting ClientRefine.sessHeld ClientRefine.sessPrev
+  cases hs : c.sess with
+  | none => simp [hs] at h; simp [h, hq]
+  | some x =>
+    simp only [hs, List.append_eq_nil_iff] at h
+    obtain ⟨hl, ⟨⟨h1, h2⟩, h3⟩, h4⟩ := h
+    simp [h1, h2, h3, h4, hl, hq]
+
+open ClientRefine in
+/-- **C01 (at least once, once the upstream behaves).** Whatever happened before — `pre`: reads, flushes, drops, earlier
+generations; `cpre`: any run of the client with any faults, ending in a good state (between two sessions, or in a session in
+which nothing has failed yet) — if from then on the upstream behaves, then after every fault-free run of the client that
+cannot be continued (every such run is at most `C02.mu` steps long, under every interleaving), every record read so far is in
+a chunk the upstream has acknowledged, or in one that was counted as dropped. -/
+theorem C01_delivered_once_upstream_behaves (pre : List Act) (e0 : St) (hpre : run {} pre = some e0)
+    (hr : e0.running = true) (hc : e0.cur = []) (hi : e0.inflight = []) (hq : e0.queue.Pairwise (· < ·))
+    (cpre : List Client.Act) (c : Client.St) (h1 : Client.run (Client.init e0.queue) cpre = some c) (hg : C02.Good c)
+    (acts : List Client.Act) (hacts : ∀ a ∈ acts, a ∈ C02.healthy) (c' : Client.St) (h2 : Client.run c acts = some c')
+    (hstuck : ∀ a ∈ C02.healthy, Client.step c' a = none)
+    (r : Nat) (hrec : r < e0.nextRec) :
+    ∃ p ∈ e0.content, r ∈ p.2 ∧ (p.1 ∈ e0.acked ∨ p.1 ∈ c'.confirmed ∨ p.1 ∈ e0.dropped) := by
+  obtain ⟨g', _⟩ := C02.healthy_run acts c c' hacts h2 hg
+  obtain ⟨hl, hq', hin⟩ := C02.healthy_stuck c' g' hstuck
+  have hrunc : Client.run (Client.init e0.queue) (cpre ++ acts) = some c' := by rw [C02.run_append, h1]; exact h2
+  obtain ⟨e, he, hrel, _⟩ := C01_client_refines_e2e e0.queue hq (cpre ++ acts) c' hrunc e0 hr hc hi rfl
+  have hfr := run_frame _ e0 e he (mapRun_clientSide (cpre ++ acts) _) hc
+  have hrun : run {} (pre ++ mapRun (Client.init e0.queue) (cpre ++ acts)) = some e := by
+    rw [e2e_run_append, hpre]; exact he
+  obtain ⟨erun, eq, ein⟩ := hrel.run g'.fin
+  obtain ⟨hh, hw⟩ := held_waiting_nil_of_inflight_nil c' hin hq'
+  obtain ⟨p, hp1, hp2, hp3⟩ := C01_drained _ e hrun erun hfr.cur (by rw [eq, hw]) (by rw [ein, hh]) r (by rw [hfr.nextRec]; exact hrec)
+  refine ⟨p, by rw [← hfr.content]; exact hp1, hp2, ?_⟩
+  rw [hrel.acked, hfr.dropped] at hp3
+  simp only [List.mem_append] at hp3
+  rcases hp3 with (h | h) | h
+  · exact Or.inl h
+  · exact Or.inr (Or.inl h)
+  · exact Or.inr (Or.inr h)
 
 /-! ### the interface between buffer and client: what the consumer receives is what `Client.init` is given -/
 
